@@ -311,3 +311,13 @@ pub enum ChangedFileKind {
 }
 
 pub type SourceFileEvent = (SourceEventKind, ChangedFileKind);
+
+/// Verification hook (model-based verification harness in /verif, engine `watch`): exposes the
+/// private event categorisation. Compiled only with `--cfg isographlabs_isograph_verif`.
+#[cfg(isographlabs_isograph_verif)]
+pub fn verif_categorize_and_filter_events(
+    events: &[DebouncedEvent],
+    config: &CompilerConfig,
+) -> Option<Vec<SourceFileEvent>> {
+    categorize_and_filter_events(events, config)
+}
